@@ -237,12 +237,24 @@ def run_tlc(module, cfg, wd, workers=4, timeout=600, env_extra=None, simulate=No
     m = re.search(r"The depth of the complete state graph search is (\d+)", out)
     if m:
         res["diameter"] = int(m.group(1))
+    # values printed by PrintT: one tuple per line, or wrapped over several lines by TLC's pretty printer
+    buf = None
     for line in out.splitlines():
-        if line.startswith("<<") and line.endswith(">>"):
+        if buf is None:
+            if not line.startswith("<<"):
+                continue
+            buf = line
+        else:
+            buf += " " + line.strip()
+        if buf.count("<<") <= buf.count(">>"):
             try:
-                res["printed"].append(_tlc_value_to_py(line))
+                res["printed"].append(_tlc_value_to_py(buf))
             except Exception:
-                res["printed"].append(("UNPARSED", line))
+                res["printed"].append(("UNPARSED", buf))
+            buf = None
+        elif len(buf) > 2_000_000:
+            res["printed"].append(("UNPARSED", buf[:500]))
+            buf = None
     # per-action coverage: lines like "<Move line 50, col 1 to line 60, col 30 of module Nav>: 12:345"
     for m in re.finditer(r"^<(\w+) line \d+, col \d+ to line \d+, col \d+ of module (\w+)>: (\d+):(\d+)", out, re.M):
         name, mod, distinct, total = m.group(1), m.group(2), int(m.group(3)), int(m.group(4))
